@@ -15,6 +15,107 @@ fn params(mem: u64, time: u32, para: u32) -> Params {
     Params { mem: big_endian::U64::new(mem), time: big_endian::U32::new(time), para: big_endian::U32::new(para) }
 }
 
+/// Specification-level validity of a PBKW parameter block — the same rule units/v4/pbkw.rs uses for the RustCrypto sibling
+/// (PASERK PBKW.md + Argon2 RFC 9106 ranges): memory is a whole number of KiB that fits 32 bits, >= 8 KiB and >= 8*parallelism KiB,
+/// time >= 1, 1 <= parallelism <= 2^24-1.
+fn params_valid(mem: u64, time: u32, para: u32) -> bool {
+    let m = mem / 1024;
+    mem % 1024 == 0 && m <= u32::MAX as u64 && m >= 8 && m >= 8 * (para as u64) && time >= 1 && para >= 1 && para <= 0xFF_FFFF
+}
+/// The parameter blocks this backend's `wrap_keys` accepts (DESCRIPTION of the code, proved exact by `wrap_keys_contract_h`):
+/// exactly one lane, at least one pass, 8 KiB <= mem <= 4 TiB - 1 KiB (libsodium's crypto_pwhash ranges), any byte count.
+fn sodium_accepts(mem: u64, time: u32, para: u32) -> bool {
+    para == 1 && time >= 1 && mem >= 8192 && mem <= 4_398_046_510_080
+}
+/// unkeyed BLAKE2b-256 of the concatenation, same uninterpreted function as vspec::v4 (whose helper is private)
+fn spec_blake2b32(parts: &[&[u8]]) -> [u8; 32] {
+    let mut o = [0u8; 32];
+    vmodel_core::uf(vmodel_core::alg::BLAKE2B, true, &[], vspec::cat(parts).as_slice(), &mut o);
+    o
+}
+/// PBKW key derivation of the specification (PBKW.md v2/v4 steps 2-4): k = Argon2id(pw, salt, mem, time, para);
+/// Ek = BLAKE2b-256(0xFF || k); Ak = BLAKE2b-256(0xFE || k)
+fn spec_keys(pw: &[u8], salt: &[u8; 16], mem: u64, time: u32, para: u32) -> ([u8; 32], [u8; 32]) {
+    let k = vspec::v4::argon2id(pw, salt, mem, time, para);
+    (spec_blake2b32(&[&[0xFF], &k]), spec_blake2b32(&[&[0xFE], &k]))
+}
+
+/// Contract of the private `wrap_keys` (proved by `wrap_keys_contract_h` for ALL parameter blocks, salts, passwords of the
+/// instance's length): Ok((Ek, BLAKE2b-MAC state keyed with Ak, 32-byte output, nothing absorbed)) iff sodium_accepts, else Err.
+/// The flow harnesses use it in its *assume-accepted* form: they are checked against the callee's contract under the precondition
+/// that the embedded parameters are accepted (the rejected case ends in the contract's Err, covered by the contract harness).
+/// Needed because CBMC does not constant-fold parameters read back through zerocopy from a >64-byte buffer, and the symbolic early
+/// return `para != 1` in front of three model calls would leave a symbolic call count behind (units/README.md rule 3b).
+///
+/// The parameters are decoded from the prefix bytes with plain shifts, not with zerocopy's `U32::get()`: in harnesses that enable
+/// RNG failure (`vmodel_core::rng_may_fail(true)`) Kani 0.68 / CBMC 6.11 evaluated `big_endian::U32::get()` inside this function to
+/// the byte-swapped value (bytes [0,0,0,1] read as 0x01000000 while `u32::from_be_bytes` of the same four bytes gave 1), which made
+/// the assumption below unsatisfiable; the vacuity guard caught it (units/v4s/NOTES.md, "tool anomaly").
+fn wrap_keys_assume_accepted(pass: &[u8], prefix: &Prefix) -> Result<(crypto_stream::Key, crypto_generichash::State), PasetoError> {
+    let b = prefix.as_bytes();
+    let mut mem: u64 = 0;
+    let mut i = 16;
+    while i < 24 { mem = (mem << 8) | b[i] as u64; i += 1; }
+    let time = ((b[24] as u32) << 24) | ((b[25] as u32) << 16) | ((b[26] as u32) << 8) | (b[27] as u32);
+    let para = ((b[28] as u32) << 24) | ((b[29] as u32) << 16) | ((b[30] as u32) << 8) | (b[31] as u32);
+    kani::assume(sodium_accepts(mem, time, para));
+    let (ek, ak) = spec_keys(pass, &prefix.salt, mem, time, para);
+    Ok((crypto_stream::Key::from(ek), crypto_generichash::State::new(Some(&ak), 32).expect("32-byte key and output are valid")))
+}
+
+/// [C07]/[C04] the REAL wrap_keys, for every parameter block: accepted exactly on `sodium_accepts`; on acceptance the keys are the
+/// specification's derivation; rejected blocks are InvalidKey (lane count) or CryptoError (libsodium range), never a panic
+pub fn wrap_keys_contract(PL: usize) {
+    let pwb: [u8; PWX] = kani::any();
+    let pw = &pwb[..PL];
+    let salt: [u8; 16] = kani::any();
+    let nonce: [u8; 24] = kani::any();
+    let mem: u64 = kani::any();
+    let time: u32 = kani::any();
+    let para: u32 = kani::any();
+    let prefix = Prefix { salt, params: params(mem, time, para), nonce };
+    let acc = sodium_accepts(mem, time, para);
+    // expected values BEFORE the call whose outcome is symbolic
+    let (ek, ak) = spec_keys(pw, &salt, mem, time, para);
+    let r = wrap_keys(pw, &prefix);
+    match r {
+        Ok((k, mac)) => {
+            let mac_ok = match mac.model_key() { Some(x) => x == &ak[..], None => false } && mac.model_message().is_empty() && mac.model_output_len() == 32;
+            vcheck_all!(
+                (acc, "[C07] wrap_keys accepts only parameter blocks with one lane, >= 1 pass and 8 KiB <= mem <= 4 TiB - 1 KiB"),
+                (k.as_bytes() == &ek[..], "[C07] the PBKW encryption key is BLAKE2b-256(0xFF || Argon2id(password, salt, mem, time, para))"),
+                (mac_ok, "[C07] the PBKW authentication key is BLAKE2b-256(0xFE || Argon2id(password, salt, mem, time, para)), 32-byte tag, empty state"),
+            );
+        }
+        Err(e) => vcheck_all!(
+            (!acc, "[C07] wrap_keys accepts every parameter block with one lane, >= 1 pass and 8 KiB <= mem <= 4 TiB - 1 KiB"),
+            (matches!(e, PE::InvalidKey) == (para != 1), "[C04] a lane count other than 1 is InvalidKey"),
+            (matches!(e, PE::CryptoError) == (para == 1), "[C04] a pass count / memory size libsodium refuses is CryptoError"),
+        ),
+    }
+    kani::cover!(acc); kani::cover!(!acc && para == 1); kani::cover!(para != 1);
+}
+
+/// [C07] "both backends of a version accept the same parameter blocks": the blocks the REAL wrap_keys accepts are exactly the
+/// specification-valid ones (the rule the sibling is checked against in units/v4/pbkw.rs::pbkdf_contract)
+pub fn params_acceptance_is_spec(PL: usize) {
+    let pwb: [u8; PWX] = kani::any();
+    let pw = &pwb[..PL];
+    let salt: [u8; 16] = kani::any();
+    let nonce: [u8; 24] = kani::any();
+    let mem: u64 = kani::any();
+    let time: u32 = kani::any();
+    let para: u32 = kani::any();
+    let prefix = Prefix { salt, params: params(mem, time, para), nonce };
+    let valid = params_valid(mem, time, para);
+    let ok = wrap_keys(pw, &prefix).is_ok();
+    vcheck_all!(
+        (!ok || valid, "[C07] only valid PBKW parameter blocks (whole KiB, Argon2 ranges) are accepted"),
+        (ok || !valid, "[C07] every valid PBKW parameter block is accepted"),
+    );
+    kani::cover!(ok && valid); kani::cover!(!ok && !valid);
+}
+
 /// [C07] pw_wrap_key == spec for the salt/nonce it drew and the given parameters; [C05] fixed length; [C16] two fresh draws
 pub fn wrap_is_spec(KL: usize, PL: usize, mem: u64, time: u32, para: u32, default_params: bool) {
     let pwb: [u8; PWX] = kani::any();
@@ -167,23 +268,33 @@ pub fn canary_inputs() {
 macro_rules! inst {
     ($($name:ident = $f:ident($($g:literal),*);)*) => { $(
         #[kani::proof] #[kani::unwind(200)]
+        #[kani::stub(wrap_keys, wrap_keys_assume_accepted)]
         pub fn $name() { $f($($g),*); kani::cover!(true, "harness end reachable"); }
     )* };
 }
 inst! {
     wrap_is_spec_32_default = wrap_is_spec(32, 2, 67108864, 2, 1, true);
     wrap_is_spec_64_custom = wrap_is_spec(64, 1, 8388608, 3, 1, false);
-    wrap_is_spec_64_para2 = wrap_is_spec(64, 1, 8388608, 3, 2, false);
     wrap_is_spec_32_memfloor = wrap_is_spec(32, 2, 8389631, 2, 1, false);
     unwrap_accepts_spec_32 = unwrap_accepts_spec(32, 2, 67108864, 2, 1);
     unwrap_accepts_spec_64 = unwrap_accepts_spec(64, 1, 8388608, 3, 1);
-    unwrap_accepts_spec_64_para2 = unwrap_accepts_spec(64, 1, 8388608, 3, 2);
     unwrap_accepts_spec_32_memfloor = unwrap_accepts_spec(32, 2, 8389631, 2, 1);
     roundtrip_32 = roundtrip(32, 2); roundtrip_64 = roundtrip(64, 1);
     unwrap_rejects_tamper_32 = unwrap_rejects_tamper(32, 2); unwrap_rejects_tamper_64 = unwrap_rejects_tamper(64, 1);
-    unwrap_short_0 = unwrap_short(0); unwrap_short_55 = unwrap_short(55); unwrap_short_56 = unwrap_short(56);
-    unwrap_short_87 = unwrap_short(87); unwrap_short_88 = unwrap_short(88); unwrap_short_121 = unwrap_short(121);
+    unwrap_len_88 = unwrap_short(88); unwrap_len_121 = unwrap_short(121);
     wrap_fail_closed_h = wrap_fail_closed();
     canary_inputs_h = canary_inputs();
+}
+// harnesses that run the REAL wrap_keys
+macro_rules! real {
+    ($($name:ident = $f:ident($($g:literal),*);)*) => { $(
+        #[kani::proof] #[kani::unwind(200)]
+        pub fn $name() { $f($($g),*); kani::cover!(true, "harness end reachable"); }
+    )* };
+}
+real! {
+    wrap_keys_contract_h = wrap_keys_contract(2);
+    params_acceptance_is_spec_h = params_acceptance_is_spec(2);
+    unwrap_short_0 = unwrap_short(0); unwrap_short_55 = unwrap_short(55); unwrap_short_56 = unwrap_short(56); unwrap_short_87 = unwrap_short(87);
 }
 // @@PLAYBACK@@
